@@ -420,6 +420,7 @@ func C07(c *hx.Ctx) {
 	}
 	var forXz [][]byte
 	var forXzPlain bytes.Buffer
+	wops := &opsBatch{}
 	parallel(len(ws), func(i int) {
 		x := ws[i]
 		data := MakeData(x.class, x.n, c.Seed+int64(i)*3)
@@ -433,6 +434,16 @@ func C07(c *hx.Ctx) {
 		run := runAlone(g, []aloneCall{{Op: "W", N: len(data)}, {Op: "C"}}, data)
 		judgeAlone(c, "C07", g, nil, run, nil, map[string]any{"cfg": g, "class": x.class, "n": len(data), "seed": c.Seed + int64(i)*3})
 		c.Count(1, 1)
+		if run.CloseOK && len(data) > 0 && len(data) <= 20000 {
+			// operation level: the window of Lzma.tla is the dictionary size the header states
+			if chk := ref.DecodeAlone(run.Sink, true); chk.Err == nil && bytes.Equal(chk.Out, data) {
+				mu.Lock()
+				if wops.lines < c.Pick(120000, 600000) {
+					wops.addAlone(fmt.Sprintf("lzma.Writer case %d cfg %+v", i, g), chk)
+				}
+				mu.Unlock()
+			}
+		}
 		// xz-utils refuses, by design (xz(1), "LZMA_Alone"), .lzma headers whose dictionary size
 		// is not 2^n or 2^n+2^(n-1); such streams are legal for the LZMA SDK decoder and are
 		// judged by the reference decoder only
@@ -443,6 +454,14 @@ func C07(c *hx.Ctx) {
 			mu.Unlock()
 		}
 	})
+	if tag, line, ok := wops.validate(c); ok && tag != "" {
+		if c.Violations() == 0 {
+			c.Inconclusive("TLC (TraceLzma) rejects the operations of a stream lzma.Writer emitted and the reference decoder accepted, at line %d: %s", line, tag)
+		} else {
+			c.Logf("TraceLzma rejects an emitted stream at line %d (%s), consistent with the reported violations", line, tag)
+		}
+	}
+	c.Extra["writer_op_traces_validated"] = wops.cases
 	if len(forXz) > 0 {
 		dir, _ := os.MkdirTemp(c.Scratch, "xzalone")
 		out, err, present := xzUtilsDecode(dir, forXz, "--format=lzma")
